@@ -218,6 +218,7 @@ struct Driver {
   long tempsAlive;
   long hintMax;
   bool injectedSeen;  // an injected / allocation exception happened in this history
+  bool movedSeen;     // a moved-from element has been visible (reported once: it then travels between sets)
   bool withinN;       // C05 ghost: no set of this history has held more than N elements so far
   std::vector<std::string> oracle;
   std::string hid;
@@ -232,7 +233,7 @@ struct Driver {
     return r;
   }
 
-  Driver() : tempsAlive(0), hintMax(-1), injectedSeen(false), withinN(true), step(0) {
+  Driver() : tempsAlive(0), hintMax(-1), injectedSeen(false), movedSeen(false), withinN(true), step(0) {
     for (int k = 0; k < K; ++k) {
       alive[k] = false;
       broken[k] = false;
@@ -1243,10 +1244,10 @@ struct Driver {
             std::sort(chk.begin(), chk.end());
           }
           if (n2 != chk) {
-            if (limitErr) {
-              fail(base(), "after out_of_range the set is not sorted and duplicate-free: [" + joinInts(now) + "] (set " + std::to_string(k) + ")");
-            }
-            broken[k] = true;  // basic guarantee only: the following steps check memory safety and the ledgers
+            // the basic guarantee keeps the invariant of the class: what is left is a set (sorted under the comparator, no two
+            // equivalent elements), whatever its elements are
+            fail(limitErr ? base() : "C09", "after " + exn + " in " + op + " the set is not sorted and duplicate-free: [" + joinInts(now) + "] (set " + std::to_string(k) + ")");
+            broken[k] = true;  // reported once: the following steps check memory safety and the ledgers
           }
           if (limitErr && before[k].alive && before[k].ok && now != before[k].vals && k != a && op != "merge")
             fail(base(), "a set not involved in the failed operation changed");
@@ -1342,7 +1343,26 @@ struct Driver {
           fail("C02", "live elements " + std::to_string(G().live) + " but sets and nodes hold " + std::to_string(expect) + (threw ? " (after an exception)" : ""));
           tempsAlive += G().live - expect;  // reported once
         }
-        // (after an injected exception the basic guarantee allows moved-from elements, which then travel between sets)
+        // the failed operation itself leaves no moved-from element visible (afterwards such an element travels between sets)
+        if (threw && !movedSeen) {
+          for (int k = 0; k < K && !movedSeen; ++k) {
+            if (!alive[k]) continue;
+            std::vector<int> now;
+            std::string why;
+            if (!walkF(v(k), now, why)) continue;
+            for (size_t i = 0; i < now.size(); ++i)
+              if (now[i] == kMoved) {
+                fail("C09", "after " + exn + " in " + op + " visible element " + std::to_string(i) + " of set " + std::to_string(k) + " is moved-from: [" + joinInts(now) + "]");
+                movedSeen = true;
+                break;
+              }
+          }
+          for (int k = 0; k < K && !movedSeen; ++k)
+            if (!node[k].empty() && valOf(node[k].value()) == kMoved) {
+              fail("C09", "after " + exn + " in " + op + " node " + std::to_string(k) + " holds a moved-from element");
+              movedSeen = true;
+            }
+        }
         if (!threw && !injectedSeen) {
           for (int k = 0; k < K; ++k) {
             if (!alive[k] || broken[k]) continue;
@@ -1515,6 +1535,15 @@ static const Entry kTable[] = {
 #elif GROUP == 5
     {"SS.N3.flat.less", &runConfig<SSflat<int, 3, CLess, CGreater, AInt, 2> >},
     {"SS.N2.flat.greater", &runConfig<SSflat<int, 2, CGreater, CLess, AInt, 4> >},
+#elif GROUP == 6
+    // instrumented elements over the other underlying vectors
+    {"FS.sv3.less.NTR", &runConfig<CfgFS<El<0>, CLess, ANTR, amc::SmallVector<El<0>, 3, ANTR>, CGreater> >},
+    {"FS.fcv16.less.NTR", &runConfig<CfgFS<El<0>, CLess, amc::vec::EmptyAlloc, amc::FixedCapacityVector<El<0>, 16>, CGreater, 16> >},
+    {"FS.std.less.NTR", &runConfig<CfgFS<El<0>, CLess, LNTR, std::vector<El<0>, LNTR>, CGreater, 0, true> >},
+#elif GROUP == 7
+    {"SS.N3.flat.less.NTR", &runConfig<SSflat<El<0>, 3, CLess, CGreater, ANTR, 2> >},
+    {"SS.N2.set.less.TR", &runConfig<SSset<El<1>, 2, CLess, CGreater, LedgerAlloc<El<1>, false>, 4> >},
+    {"SS.N3.flat.less.TR", &runConfig<SSflat<El<1>, 3, CLess, CGreater, ATR, 2> >},
 #endif
 };
 
